@@ -106,7 +106,7 @@ CHECKS['C02'] = dict(
           'Tie: random tables (1-5 rows, all six row kinds, operator spellings shared between prefix/infix/postfix rows and prefixes of one another, literal / regex / rule / class / consuming-rule operands, several enclosing contexts) x token strings, complete and truncated: '
           'tree and end index compared with the Lean model and specification; the tagging hypothesis of the theorem is evaluated by the driver (allTablesTagged) on every table the real generator builds. '
           'C02_unique / C02_result_is_the_well_shaped_tree (two well-shaped trees with the same reading are equal: the stack operations rebuild every well-shaped tree from its reading). '
-          'PARTIAL: maximality of the run is decided by the exhaustive correspondence only, not by a theorem.'),
+          'C02_run_is_maximal (the expression ends at the returned position only because no infix operator can be read there, or the one read is not followed by an operand - it is left unconsumed -, or it is non-associative and one of its row is open at the right edge).'),
     note='Trusted as for C01.',
     design='0.2, 0.9, 7 (C02)')
 
